@@ -197,6 +197,7 @@ func engEvents(e *Env) {
 		live := map[int]string{} // k -> docID
 		val := map[int]int{}
 		nontrivial := false
+		explicitPartial := false
 		note := func(k int, v int, deleted bool) {
 			expected = append(expected, live[k])
 			if !deleted && v >= 5 {
@@ -350,6 +351,35 @@ func engEvents(e *Env) {
 				}
 			}
 		}
+		// explicit transaction in which one operation is rejected and the transaction is committed nevertheless:
+		// the rejected operation must leave nothing behind and announce nothing
+		if hi%4 == 1 && len(live) > 0 {
+			var anyK int
+			for k := range live {
+				anyK = k
+				break
+			}
+			t, err := x.n.DB.NewTxn(ctx, false)
+			if err == nil {
+				k1, k2 := nextK, nextK+1
+				nextK += 2
+				r1 := t.ExecRequest(ctx, fmt.Sprintf(`mutation { create_Ev(input: [{k: %d, v: 9}, {k: %d, v: 9}]) { _docID } }`, k1, anyK))
+				r2 := t.ExecRequest(ctx, fmt.Sprintf(`mutation { create_Ev(input: {k: %d, v: 1}) { _docID } }`, k2))
+				cerr := t.Commit(ctx)
+				desc = append(desc, fmt.Sprintf("txn(create [k=%d, clash k=%d] -> rejected: %v; create k=%d) commit %v", k1, anyK, len(r1.GQL.Errors) > 0, k2, cerr))
+				if len(r1.GQL.Errors) > 0 && len(r2.GQL.Errors) == 0 && cerr == nil {
+					live[k2] = fmt.Sprint(rowsOf(asMap(r2.GQL.Data), "create_Ev")[0]["_docID"])
+					val[k2] = 1
+					note(k2, 1, false)
+					d, _ := x.gql(ctx, fmt.Sprintf(`query { Ev(filter: {k: {_eq: %d}}) { _docID } }`, k1))
+					e.Res.Evaluations++
+					if len(rowsOf(d, "Ev")) > 0 {
+						e.violate("explicit-txn-partial", fmt.Sprintf("inside an explicit transaction the request creating k=%d and a clashing k=%d was rejected, the transaction was committed: the document k=%d exists", k1, anyK, k1), map[string]any{"branchable": branchable, "operations": desc})
+						explicitPartial = true
+					}
+				}
+			}
+		}
 		// collect
 		time.Sleep(60 * time.Millisecond)
 		replay := map[string]any{"branchable": branchable, "operations": desc}
@@ -396,6 +426,9 @@ func engEvents(e *Env) {
 			}
 			wantDocs := expected[s.since/perCommit:]
 			e.Res.Evaluations++
+			if explicitPartial {
+				continue // the partially applied request also announced its document (same finding)
+			}
 			if len(s.got) != want {
 				e.violate("event-count", fmt.Sprintf("subscriber %d (subscribed after %d events) received %d update events, %d were due (one per committed document-level commit%s)", si, s.since, len(s.got), want, map[bool]string{true: " plus one per collection-level commit", false: ""}[branchable]), replay)
 			} else if strings.Join(gotDocs, ",") != strings.Join(wantDocs, ",") {
